@@ -47,7 +47,23 @@ def extract_cfg(sp, coid, d):
         for e in blk:
             if isinstance(e, TryBegin):
                 handlers.add(bcfg.get_block_index(e.target))
-    problems, blocks, info = [], [], {"preds": 0, "for": 0, "none": 0, "pseudo_before_probe": 0}
+    problems, blocks, info = [], [], {"preds": 0, "for": 0, "none": 0, "pseudo_before_probe": 0, "passthrough": 0}
+    # A FOR_ITER may target a block that holds only a TryBegin (the try region is re-entered on the way
+    # to END_FOR).  Such a block has no instruction, cannot be left by an exception and is entered only
+    # from its FOR_ITER: it is part of the exhaustion edge.
+    passthrough = set()
+    for b in d["blocks"]:
+        origs0 = [e for e in b["inst"] if e[0] == "O"]
+        if origs0 and origs0[-1][1] == "FOR_ITER" and b["index"] in nodes:
+            jump_instr = [e for e in bcfg[b["index"]] if hasattr(e, "name") and e.name == "FOR_ITER"][-1]
+            k = bcfg.get_block_index(jump_instr.arg)
+            while k is not None and k in nodes and not any(e[0] in ("O", "A") for e in d["blocks"][k]["inst"]):
+                ps = {u.index for u in graph.predecessors(nodes[k]) if hasattr(u, "index")}
+                if ps != ({b["index"]} if not passthrough & ps else ps) and not ps <= passthrough | {b["index"]}:
+                    break
+                passthrough.add(k)
+                k = d["blocks"][k]["next"]
+    info["passthrough"] = len(passthrough)
     for b in d["blocks"]:
         bi = b["index"]
         els = b["inst"]
@@ -159,6 +175,8 @@ def extract_cfg(sp, coid, d):
                         if any(x[0] != "O" and x[0] != "A" for x in els[:s]):
                             info["pseudo_before_probe"] += 1
                         term = f"C03.TCond {cnat(pid)} {JUMPS[last]} {cbool(lbl)} {kind} {cnat(tgt)} {cnat(nxt)}"
+        if term is None and bi in passthrough:
+            term = "C03.TOther []"
         if term is None:
             if predrec:
                 problems.append(f"block {bi}: predicate probe in a block without conditional jump")
